@@ -11,6 +11,7 @@ FLT_PARTS = ["f32", "f64"]
 TUS = {
     "t_arith": {"sources": ["t_arith.cpp"], "parts": INT_PARTS},
     "t_cmp": {"sources": ["t_cmp.cpp"], "parts": INT_PARTS + FLT_PARTS},
+    "t_bit": {"sources": ["t_bit.cpp"], "parts": INT_PARTS},
 }
 
 COMMON_ASSUMPTIONS = [
@@ -50,6 +51,15 @@ PROPS = {
                 "non-trivial: operands differ in sign, or agree in the upper half and differ in the lower, or involve NaN / zero.",
         "explanation": "every comparison operator on every tuple, mask decoded from its raw representation (dirty lanes are failures), "
                        "compared with the C++ scalar operator; the mask is also observed through Vector(mask)",
+        "assumptions": [],
+    },
+    "C06": {
+        "tus": ["t_bit"],
+        "configs": scalar_cfgs,
+        "rule": "every element value for 8- and 16-bit types (and 32-bit in thorough; L32 lattice in quick), the full L64 lattice "
+                "(one/two-bit patterns, low/high masks, neighbours, complements) for 64-bit; K in every lane against every fill. "
+                "non-trivial: input is 0, all-ones, has its top bit set, or the result is non-zero.",
+        "explanation": "each <bit>-family function a type provides, on every value, against bit-loop models of the C++20 definitions",
         "assumptions": [],
     },
 }
